@@ -170,6 +170,11 @@ def run(ctx, model):
     else:
         ctx.notes.append("public-call level (read/write/generic_message through the fake socket) not built yet")
     run_public(ctx, model)
+    run_multi_packet(ctx, model)
+    from props import kernels
+    kernels.run_multi(ctx, model, "C13")
+    from props import logixdrv
+    logixdrv.run_altered(ctx, model, "C13")
     outs = model.batch(lines)
     for (stream, transport, raw, impl), out in zip(pend, outs):
         if out != impl:
@@ -185,6 +190,7 @@ def run_public(ctx, model):
     from props import logix as lx
     rng = ctx.rng
     STAT = [(0x05, []), (0x10, []), (0xFF, [0x2105]), (0x04, [0]), (0x1F, [0x0203])]
+    ENCAP = [0x65, 0x01, 0x03, 0x64, 0x69, 0x10000, 0x80000000]
 
     def err_reply(reply, status, ext):
         # connected reply: 44 bytes of encapsulation + CPF, sequence count, reply service, reserved, status, ext size, ext words
@@ -230,7 +236,10 @@ def run_public(ctx, model):
             continue
         positions = list(range(n_replies)) if ctx.tier == "thorough" or n_replies <= 4 else sorted({0, 1, n_replies // 2, n_replies - 2, n_replies - 1})
         for k in positions:
-            for how in (["status"] * 2 + ["cut47", "cut48"]) if ctx.tier == "quick" else (["status"] * len(STAT) + ["cut47", "cut48", "cut46"]):
+            # "encap": the reply keeps its body but carries a non-zero encapsulation status; "encap-all": every connected
+            # reply of the call does (then no request of the call may come back as success)
+            for how in (["status"] * 2 + ["cut47", "cut48", "encap"] + (["encap-all"] if k == positions[0] else [])) if ctx.tier == "quick" \
+                    else (["status"] * len(STAT) + ["cut47", "cut48", "cut46", "encap"] + (["encap-all"] if k == positions[0] else [])):
                 status, ext = rng.choice(STAT) if ctx.tier == "quick" else STAT[positions.index(k) % len(STAT)]
                 p, s = session()
                 if s.open_error is not None:
@@ -243,6 +252,10 @@ def run_public(ctx, model):
                         return reply
                     i = seen["n"]
                     seen["n"] += 1
+                    if how.startswith("encap") and (i == k or how == "encap-all"):
+                        out = bytearray(reply)
+                        struct.pack_into("<I", out, 8, ENCAP[(k + len(kind)) % len(ENCAP)])
+                        return bytes(out)
                     if i != k:
                         return reply
                     if how == "status":
@@ -273,7 +286,16 @@ def run_public(ctx, model):
                 # the first request of the call is the one whose transfer was hit when the call is a single transfer;
                 # in the multi calls every request shares the packet
                 hit = rl if kind.startswith("multi") else rl[:1]
-                if how != "status" or True:
+                if how == "encap-all":
+                    bad = [t for t in rl if t]
+                    if bad:
+                        ctx.violation("encapsulation-error-reported-as-success:" + kind, case,
+                                      "every connected reply of the call carried a non-zero encapsulation status, result %s"
+                                      % [lx.tag_summary(t) for t in bad][:3])
+                    for t in rl:
+                        if not t and not t.error:
+                            ctx.violation("falsy-result-without-error-text:" + kind, case, str(lx.tag_summary(t)))
+                elif how != "status" or True:
                     bad = [t for t in hit if t]
                     # in a multi call only the requests carried by the altered packet must fail: at least one does
                     if (kind.startswith("multi") and len(bad) == len(hit)) or (not kind.startswith("multi") and bad):
@@ -284,6 +306,80 @@ def run_public(ctx, model):
                         if not t and not t.error:
                             ctx.violation("falsy-result-without-error-text:" + kind, case, str(lx.tag_summary(t)))
                 s.close()
+
+
+def run_multi_packet(ctx, model):
+    """packet level of the multi-service rule: `_send_requests` fails every embedded reply of a packet whose encapsulation
+    status is not 0.  Model function `multiPacketError` and the number of embedded replies against
+    `MultiServiceResponsePacket` on well-formed, status-altered, truncated and corrupted multi-service replies."""
+    from pycomm3.packets.logix import MultiServiceResponsePacket
+    from pycomm3.packets.cip import GenericConnectedResponsePacket
+    from pycomm3.const import SUCCESS
+    rng = ctx.rng
+
+    class Sub:
+        response_class = GenericConnectedResponsePacket
+        data_type = None
+
+    class Outer:
+        requests = [Sub() for _ in range(40)]
+
+    def body(n, sts):
+        subs = [bytes([0xCC, 0, sts[i % len(sts)], 0]) + (b"\xc4\x00" + bytes(rng.getrandbits(8) for _ in range(4)) if sts[i % len(sts)] == 0 else b"")
+                for i in range(n)]
+        offs, pos = [], 2 + 2 * n
+        for b in subs:
+            offs.append(pos)
+            pos += len(b)
+        return struct.pack("<H", n) + b"".join(struct.pack("<H", o) for o in offs) + b"".join(subs)
+
+    lines, pend = [], []
+    raws = []
+    for enc in (0, 0, 1, 3, 0x65, 0x69, 0x10000, 0x7FFFFFFF, 0x80000000, 0xFFFFFFFF):
+        for outer_st in (0, 0x1E, 5):
+            for n in (0, 1, 2, 5):
+                raw = build_reply("conn", 0x8A, outer_st, [], body(n, [0, 0, 4]), encap_status=enc)
+                raws.append(raw)
+        raws.append(struct.pack("<HHII8sI", 0x70, 0, 0x1001, enc, b"_pycomm_", 0))
+    base = build_reply("conn", 0x8A, 0, [], body(3, [0]), encap_status=0x65)
+    raws += [base[:c] for c in range(len(base) + 1)]
+    for _ in range(ctx.budget(300, 4000)):
+        raw = bytearray(build_reply("conn", 0x8A, rng.choice([0, 0, 0x1E]), [], body(rng.randint(0, 4), [0, rng.choice([0, 5])]),
+                                    encap_status=rng.choice([0, 0, 0x65, 1, rng.getrandbits(32)])))
+        for _ in range(rng.choice([0, 1, 1, 3])):
+            i = rng.randrange(len(raw))
+            raw[i] = rng.getrandbits(8) if rng.random() < 0.5 else raw[i] ^ (1 << rng.randrange(8))
+        raws.append(bytes(raw))
+    raws.append(None)
+    for raw in raws:
+        ctx.case("multi-packet", ("mp", raw))
+        try:
+            r = core.with_budget(5, MultiServiceResponsePacket, Outer(), raw)
+            try:
+                pe = r.error if r.command_status != SUCCESS else None
+                out = "ok %s %d" % (canon_err(pe), len(r.responses))
+            except BaseException as e:  # noqa
+                if isinstance(e, (KeyboardInterrupt, SystemExit)):
+                    raise
+                out = "ok raise:%s %d" % (core.exn_class(e), len(r.responses))
+        except BaseException as e:  # noqa
+            if isinstance(e, (KeyboardInterrupt, SystemExit)):
+                raise
+            out = "err " + core.exn_class(e)
+        lines.append("ld.multipkt %s" % (sx.hexb(raw) if raw is not None else "N"))
+        pend.append((raw, out))
+    outs = model.batch(lines)
+    for (raw, impl), out in zip(pend, outs):
+        # the model reports every embedded reply, the library pairs them with the (here 40) requests
+        if out.startswith("ok "):
+            head, n = out.rsplit(" ", 1)
+            out = "%s %d" % (head, min(int(n), 40))
+        # without embedded replies there is nothing the packet error could be attached to (the library then holds the
+        # failure of its own multi-service parse, which `_send_requests` never looks at)
+        if out.endswith(" 0") and impl.endswith(" 0") and not out.startswith("ok raise") and not impl.startswith("ok raise"):
+            out = impl = "ok - 0"
+        if out != impl:
+            ctx.mismatch("multi-packet", {"raw": None if raw is None else raw.hex()[:300]}, impl[:300], out[:300])
 
 
 def replay(ctx, model, data):
